@@ -75,7 +75,7 @@ def check_stats(case, result, rec, log, cap):
     if any(r["kappa"] > 1e8 or not np.isfinite(r["kappa"]) for _, rr in refs for r in rr.values()):
         rec.skip("reference ill-conditioned (kappa > 1e8)")
         return None
-    if any(r.get("nnls") and r["kappa"] ** 2 >= 64 * 20 for _, rr in refs for r in rr.values()):
+    if any(r.get("nnls") and (r["kappa"] ** 2 >= 64 * 20 or r["f13"] or r["huge"]) for _, rr in refs for r in rr.values()):
         rec.skip("NNLS group in F13 regime")
         return None
     # chi-square from the result's own datasets
@@ -99,7 +99,9 @@ def check_stats(case, result, rec, log, cap):
         if result.number_of_residuals != nres:
             b.append(("number_of_residuals", f"{result.number_of_residuals} != data points {ndata} + penalties {len(pens)}"))
         chi = ssq + float(np.sum(np.square(pens)))
-        if rel(result.chi_square, chi) > 1e-9:
+        # penalties are functions of the clps: conditioning of the linear solves enters (kappa <= 1e8 admitted above)
+        kmax = max(r["kappa"] for r in rr.values())
+        if rel(result.chi_square, chi) > max(1e-9, 64 * np.finfo(float).eps * kmax):
             b.append(("chi_square", f"chi_square {result.chi_square!r} != sum of squared (weighted) residuals of the result datasets + squared penalties {chi!r}"))
         nclp = sum(rr[g]["n_clps"] for g in groups)
         if result.number_of_clps != nclp:
